@@ -41,7 +41,7 @@ import (
 // ---------------------------------------------------------------------------------------------------------------
 // worker side
 
-var repoFrameRe = regexp.MustCompile(`github\.com/datastax/go-cassandra-native-protocol/([a-z0-9/]+)\.([^\s(]+)\(`)
+var repoFrameRe = regexp.MustCompile(`github\.com/datastax/go-cassandra-native-protocol/([a-z0-9/]+)\.(\(\*?\w+\)\.[\w.]+|[^\s(]+)\(`)
 
 // panicSite: the first frame of the stack inside the library, as "package.Function".
 func panicSite(stack string) string {
